@@ -419,3 +419,35 @@ fn take_from_entry(
         }
     }
 }
+
+/// Verification hook: content of a queue for the correspondence snapshot.
+#[cfg(it4innovations_hyperqueue_verif)]
+pub(crate) fn verif_queue_snapshot(queue: &TaskQueue) -> crate::verif::server::SnapQueue {
+    let ready = queue
+        .queue
+        .iter()
+        .map(|(p, ts)| {
+            let ids: Vec<TaskId> = match ts {
+                OneOrMoreTaskIds::One(t) => vec![*t],
+                OneOrMoreTaskIds::More(ts) => ts.iter().copied().collect(),
+            };
+            (raw_priority(p.0), ids)
+        })
+        .collect();
+    let prefill = queue.prefill.as_ref().map(|(p, ts)| {
+        let mut ids: Vec<TaskId> = ts.iter().copied().collect();
+        ids.sort();
+        (raw_priority(*p), ids)
+    });
+    crate::verif::server::SnapQueue { ready, prefill }
+}
+
+#[cfg(it4innovations_hyperqueue_verif)]
+fn raw_priority(p: Priority) -> u64 {
+    // Priority has no public accessor; its Debug form is `Priority(<u64>)`
+    let s = format!("{p:?}");
+    s.trim_start_matches("Priority(")
+        .trim_end_matches(')')
+        .parse()
+        .unwrap()
+}
